@@ -126,6 +126,35 @@ func namePositions(s string, ctx int) []int {
 	return out
 }
 
+// entityEncodedSchemeVectors: URL attributes whose value starts with a scheme word in which one letter (or all)
+// is a numeric character reference. Hexadecimal references contain letters (x, a-f), so a case re-assignment
+// changes the spelling of the reference and must not change what it decodes to.
+func entityEncodedSchemeVectors() []string {
+	var out []string
+	refs := func(b byte) []string {
+		return []string{fmt.Sprintf("&#x%x;", b), fmt.Sprintf("&#x%x", b), fmt.Sprintf("&#%d;", b), fmt.Sprintf("&#x00%x;", b)}
+	}
+	tmpl := []string{"<a href=V>", "<a href=\"V\">x</a>", "<iframe src='V'>", "<form action= V >"}
+	for _, wd := range []string{"javascript:alert(1)", "vbscript:msgbox(1)", "data:text/html,x", "view-source:x", "JAVASCRIPT:alert(1)", "VBSCRIPT:x", "DATA:x", "VIEW-SOURCE:x"} {
+		n := strings.IndexByte(wd, ':')
+		all := [4]string{}
+		for i := 0; i < n; i++ {
+			for k, r := range refs(wd[i]) {
+				all[k] += r
+				for _, t := range tmpl {
+					out = append(out, strings.Replace(t, "V", wd[:i]+r+wd[i+1:], 1))
+				}
+			}
+		}
+		for k := range all {
+			for _, t := range tmpl {
+				out = append(out, strings.Replace(t, "V", all[k]+wd[n:], 1))
+			}
+		}
+	}
+	return out
+}
+
 func TestC11(t *testing.T) {
 	c := NewCheck(t, "C11", "kind case: pair (s,s') with s' a case re-assignment of the ASCII letters of s outside case-insensitive occurrences of [cdata[; oracle IsXSS and all five per-context verdicts equal; kind nul: (s, ctx, position strictly inside a tag-name or attribute-name token of (s,ctx), 1..3 NULs): the ctx verdict is unchanged; non-trivial = (case) a letter flipped and some verdict true, (nul) the name is a black tag/attribute or the verdict is true; deterministic parts duplicate-free, random parts deduplicated by FNV-64")
 	c.rec.Assume = []string{"token boundaries and per-context verdicts read through the accessors"}
@@ -149,6 +178,16 @@ func TestC11(t *testing.T) {
 		for _, m := range []int{1, 2} {
 			if s2 := maskCase(s, ex, m, 0); s2 != s {
 				w.Judge(ev.Case{Kind: "case", In: s, In2: s2})
+			}
+		}
+	})
+	ee := entityEncodedSchemeVectors()
+	p = c.rec.NewPart("case_entity_encoded_schemes", fmt.Sprintf("%d URL-attribute vectors whose scheme word has one letter (every position, either letter case), or every letter, written as a character reference (&#xHH; &#xHH &#DDD; - the hexadecimal digits and the x are letters too) x {upper, lower, alternating, alternating'}", len(ee)), false, true, "")
+	c.ParRange(p, int64(len(ee)), func(w *Worker, i int64) {
+		ex := xssExempt(ee[i])
+		for m := 0; m < 4; m++ {
+			if s2 := maskCase(ee[i], ex, m, int(i)); s2 != ee[i] {
+				w.Judge(ev.Case{Kind: "case", In: ee[i], In2: s2})
 			}
 		}
 	})
